@@ -67,8 +67,9 @@ def range_bounds(r):
 
 
 class Norm:
-    def __init__(self, view_ok=None):
+    def __init__(self, env=None):
         self.cache = {}
+        self.env = env or {}
         self.unknown_calls = set()
 
     def __call__(self, t):
@@ -91,6 +92,9 @@ class Norm:
         if k == "deref":
             return n(t[1])
         if k == "local":
+            v = self.env.get(t[1])
+            if v is not None and not (isinstance(v, tuple) and v[0] in ("post", "loopvar", "uninit", "local")):
+                return n(v)
             return t
         if k == "param":
             return ("P", t[1])
